@@ -238,6 +238,10 @@ func GenCasmCase(r *hx.RNG) (ops []Op, ids []uint64) {
 	}
 	next := uint64(1) // ids are never reused, also not after a revert (a class hash names one definition)
 	n := 3 + r.Intn(8)
+	preV014Below := 0 // blocks at heights below this carry PreV014Version
+	if r.Chance(30) {
+		preV014Below = 1 + r.Intn(3)
+	}
 	for len(ops) < n {
 		if len(stack) > 0 && r.Chance(28) {
 			k := 1 + r.Intn(3)
@@ -253,7 +257,9 @@ func GenCasmCase(r *hx.RNG) (ops []Op, ids []uint64) {
 		g := reg().Clone()
 		spec := &BlockSpec{Version: "0.14.0", Salt: uint64(r.Intn(3))}
 		v1 := true
-		if r.Chance(50) {
+		if len(stack) < preV014Below {
+			spec.Version = PreV014Version // below the crossing into 0.14.0 (other state commitment formula while no Sierra class exists)
+		} else if r.Chance(50) {
 			spec.Version, v1 = "0.14.1", false
 		}
 		if !v1 {
